@@ -495,10 +495,25 @@ pub mod cluster {
         state
     }
 
+    /// Process-wide override of the index from which `peers_of` derives a node's address
+    /// (`127.0.(i / 250).(i % 250 + 1):9042`): two host ids mapped to the same index share an
+    /// address. `None` (the default) = every node gets the address of its position in the list.
+    pub static ADDRESS_INDEX_OVERRIDE: std::sync::Mutex<Option<HashMap<Uuid, u16>>> =
+        std::sync::Mutex::new(None);
+
     fn peers_of(nodes: &[NodeSpec]) -> Vec<Peer> {
+        let address_index = ADDRESS_INDEX_OVERRIDE.lock().unwrap().clone();
         nodes
             .iter()
             .enumerate()
+            .map(|(i, n)| {
+                let i = address_index
+                    .as_ref()
+                    .and_then(|m| m.get(&n.host_id))
+                    .map(|x| *x as usize)
+                    .unwrap_or(i);
+                (i, n)
+            })
             .map(|(i, n)| Peer {
                 host_id: n.host_id,
                 address: NodeAddr::Translatable(SocketAddr::from((
